@@ -18,7 +18,9 @@ import (
 	"runtime"
 	"runtime/debug"
 	"sync"
+	"sync/atomic"
 	"testing"
+	"time"
 
 	gsnappy "github.com/golang/snappy"
 	zstdlib "github.com/klauspost/compress/zstd"
@@ -38,6 +40,7 @@ func TestMain(m *testing.M) {
 	// soft limit: up to 16 of these processes run side by side, and zstd/lz4
 	// objects are megabytes each
 	debug.SetMemoryLimit(1 << 30)
+	ev.Timed("hang/")
 	ev.Main(m, "C16")
 }
 
@@ -1474,6 +1477,38 @@ var pinOnce sync.Once
 // is the previous life of the object used next.
 func pin() { pinOnce.Do(func() { runtime.GOMAXPROCS(1) }) }
 
+// guarded runs fn with a watchdog.  The codecs do no I/O: a use of a few streams takes milliseconds (seconds for the
+// largest payloads written byte by byte), so one that has not returned after hangLimit is a call that never comes back.  The
+// goroutine is left behind (it may spin); reported as a timed rule, i.e. not on a machine that is itself late.
+const hangLimit = 60 * time.Second
+
+// once a call has hung, the ones left behind may be spinning on the only P: the attempts that follow (shrinking) get 3 s
+var hangSeen atomic.Bool
+
+func guarded(fn func()) (hung bool) {
+	limit := hangLimit
+	if hangSeen.Load() {
+		limit = 3 * time.Second
+	}
+	done := make(chan struct{})
+	var panicked interface{}
+	go func() {
+		defer close(done)
+		defer func() { panicked = recover() }()
+		fn()
+	}()
+	select {
+	case <-done:
+		if panicked != nil {
+			panic(panicked) // on the caller's goroutine, where the test framework sees it
+		}
+		return false
+	case <-time.After(limit):
+		hangSeen.Store(true)
+		return true
+	}
+}
+
 func evaluate(tb ev.TB, kind string, c Case) {
 	c = normalize(c)
 	if c.Goroutines > 1 {
@@ -1489,14 +1524,24 @@ func evaluate(tb ev.TB, kind string, c Case) {
 			hcs = normCodec(c.Codec.sibling())
 			hc = hcs.value()
 		}
-		f, e := runHist(hc, hcs, h)
+		var f *failure
+		var e bool
+		if guarded(func() { f, e = runHist(hc, hcs, h) }) {
+			ev.Fail(tb, kind, "hang/history/"+hcs.tag(), c, "history step %d (%s) on %s had not returned after %v", i, h.Op, hcs.tag(), hangLimit)
+			return
+		}
 		errStream = errStream || e
 		if f != nil {
 			ev.Fail(tb, kind, f.sig, c, "history step %d (%s) on %s: %s", i, h.Op, hcs.tag(), f.msg)
 			return
 		}
 	}
-	comps, f := runUse(codec, c.Codec, c.Streams, c.UseRef, c.Ref, 0, false)
+	var comps [][]byte
+	var f *failure
+	if guarded(func() { comps, f = runUse(codec, c.Codec, c.Streams, c.UseRef, c.Ref, 0, false) }) {
+		ev.Fail(tb, kind, "hang/use/"+c.Codec.tag(), c, "%s: writing and reading the streams had not returned after %v (a call into the codec never comes back)", c.Codec.tag(), hangLimit)
+		return
+	}
 	if f != nil {
 		if len(c.History) > 0 {
 			// metamorphic: the same use on a new codec value, no explicit history
